@@ -198,6 +198,15 @@ def slots(s, pre=()):
     return out
 
 
+def side_struct(spec, side):
+    """the struct of a side as the compiler sees it: the source struct starts with the embedded mapper type"""
+    st = spec[side]
+    mp = spec.get("mapper")
+    if side == "src" and mp:
+        return dict(st, members=[{"k": "e", "decl": {"name": mp["name"], "members": [], "kind": "plain"}, "ptr": mp["ptr"]}] + st["members"])
+    return st
+
+
 def all_types(spec):
     out = []
 
@@ -401,7 +410,7 @@ def case_sexp(cid, spec, masks=None, fmasks=None, prop="C05"):
          ["src", spec["src"]["kind"]] + members_sexp(spec["src"], tix),
          ["dest", spec["dest"]["kind"]] + members_sexp(spec["dest"], tix),
          mx,
-         ["slots", ["src"] + [Q(x) for x in slots(spec["src"])], ["dest"] + [Q(x) for x in slots(spec["dest"])]],
+         ["slots", ["src"] + [Q(x) for x in slots(side_struct(spec, "src"))], ["dest"] + [Q(x) for x in slots(spec["dest"])]],
          ["masks"] + [Q(m) for m in (masks or [])],
          ["fmasks"] + [Q(m) for m in (fmasks or [])]]
     return dump(x)
@@ -628,7 +637,14 @@ class MapGen:
             # distractors and (rarely) a second method of the same signature
             if r.random() < 0.4:
                 funcs.append({"param": self.pick([F64, U8, SL(STR)]), "result": self.pick([STR, INT])})
-            if funcs and r.random() < o.get("dupfunc", 0.05):
+            # one method per signature (two methods of the same signature: the property does not say which is "the" method)
+            seen, uniq = set(), []
+            for f in funcs:
+                if (f["param"], f["result"]) not in seen:
+                    seen.add((f["param"], f["result"]))
+                    uniq.append(f)
+            funcs = uniq
+            if funcs and r.random() < o.get("dupfunc", 0.03):
                 funcs.append(dict(self.pick(funcs)))
             r.shuffle(funcs)
             funcs = funcs[:5]
